@@ -696,7 +696,7 @@ def _insert_guards(f, ins, db):
     return keyed and f.dominates(tr, db) and db not in f.reach_from(fl, avoid={ib})
 
 
-def rule_walk(ctx, prop):
+def rule_walk(ctx, prop, dedup_only=False):
     import extract
     rep = Report(prop, "R-WALK", "file selection wiring: de-duplication before dispatch, default globs per "
                                  "configuration, hidden(!allow_hidden), custom ignore file name, explicit-path predicate")
@@ -755,6 +755,8 @@ def rule_walk(ctx, prop):
                               "arguments would be processed twice", f.loc(disp[1]["sp"]), cfg)
             # the worker's path is the de-duplicated path
             # (closure upvar provenance shares a root with the contains key)
+        if dedup_only:
+            continue     # C19: one job per file (two jobs on one file race on its contents); the selection clauses are C16's
         # (2) default glob constants
         inis = [g for g in prog.fns("stylua") if g.path.endswith("__static_ref_initialize") and
                 any(callee(t) == "globset::Glob::new" for _, t in g.calls())]
@@ -993,40 +995,52 @@ def rule_err_status(ctx, prop):
                         s["rv"].get("variant") == "Error" and "log::Level" in s["rv"].get("adt", ""):
                     raisers.add(bi)
         rep.floor("status-2 raisers in the output closure", len(raisers), 3, cfg)
-        # search for a path Err-arm -> loop header avoiding raisers
-        seen = set()
-        stack = [(errb, [])]
-        escapes = []
-        while stack:
-            b, calls = stack.pop()
-            if b in raisers:
-                continue
-            if b == header or oc.blocks[b]["term"]["k"] == "return":
-                escapes.append(calls)
-                continue
-            if b in seen:
-                continue
-            seen.add(b)
-            t = oc.blocks[b]["term"]
-            nc = calls
-            if t["k"] == "call":
-                c = callee(t)
-                if not re.search(r"(^core::|^std::(fmt|ptr|mem)|deref|drop|downcast_ref|::lock$)", c):
-                    nc = calls + [c.split("::")[-1]]
-            for s in oc.succ[b]:
-                stack.append((s, nc))
-        ok = not escapes
-        rep.inst(f"{oc.key} Err-arm-always-raises-status-2", {"err_block": errb, "raisers": sorted(raisers)[:8]}, cfg, ok=ok)
-        keys = set()
-        for calls in escapes:
-            via = ",".join(calls[:6]) or "nothing"
-            if via in keys:
-                continue
-            keys.add(via)
-            rep.violation(f"{oc.key} error-handled-without-status-2 via={via}",
-                          f"the output thread has a path that handles an Err result (calls: {via}) and returns to the "
-                          f"receive loop without raising the exit status to 2: the run can exit 0/1 although a file could "
-                          f"not be read, parsed or verified", oc.loc(), cfg)
+        # every Err edge in the closure: the received result, and the results of the closure's own fallible calls
+        # (stdout writes): search for a path Err-arm -> loop header avoiding raisers
+        err_arms = [("received result", errb)]
+        for bi in range(len(oc.blocks)):
+            si = switch_info(oc, bi)
+            if si and si["enum"].endswith("result::Result") and si["targets"].get("Err") is not None and \
+                    si["targets"].get("Ok") is not None and si["targets"]["Err"] != errb:
+                src = sorted({r[1].split("::")[-1] for r in provenance(oc, si["place"], through=None) if r[0] == "call"})
+                err_arms.append((f"result of {','.join(src) or 'a local value'}", si["targets"]["Err"]))
+        for label, eb in err_arms:
+            seen = set()
+            stack = [(eb, [])]
+            escapes = []
+            while stack:
+                b, calls = stack.pop()
+                if b in raisers:
+                    continue
+                if b == header or oc.blocks[b]["term"]["k"] == "return":
+                    escapes.append(calls)
+                    continue
+                if b in seen:
+                    continue
+                seen.add(b)
+                t = oc.blocks[b]["term"]
+                nc = calls
+                if t["k"] == "call":
+                    c = callee(t)
+                    if not re.search(r"(^core::|^std::(fmt|ptr|mem)|deref|drop|downcast_ref|::lock$)", c):
+                        nc = calls + [c.split("::")[-1]]
+                for s_ in oc.succ[b]:
+                    stack.append((s_, nc))
+            ok = not escapes
+            first = label == "received result"
+            rep.inst(f"{oc.key} Err-arm-always-raises-status-2" + ("" if first else f" [{label}]"),
+                     {"err_block": eb, "raisers": sorted(raisers)[:8]}, cfg, ok=ok)
+            keys = set()
+            for calls in escapes:
+                via = ",".join(calls[:6]) or "nothing"
+                if via in keys:
+                    continue
+                keys.add(via)
+                rep.violation(f"{oc.key} error-handled-without-status-2 " + ("" if first else f"on={label.replace(' ', '-')} ") + f"via={via}",
+                              f"the output thread has a path that handles an Err ({label}; calls: {via}) and returns to the "
+                              f"receive loop without raising the exit status to 2: the run can exit 0/1 although a file could "
+                              f"not be read, parsed or verified - or its result could not be reported", oc.loc(), cfg)
+        rep.floor("Err arms in the output closure", len(err_arms), 1, cfg)
     return rep
 
 
@@ -1058,6 +1072,16 @@ def rule_loop_exit(ctx, prop):
                 continue
             n += 1
             pr = provenance(f, t["args"][0])
+            # an inlined helper that itself uses `?` rebuilds the error with from_residual: the error is the inner one
+            for _ in range(4):
+                res = {r for r in pr if r[0] == "call" and r[1].endswith("from_residual")}
+                if not res:
+                    break
+                pr = pr - res
+                for r in res:
+                    ta = f.blocks[r[2]]["term"]["args"]
+                    if ta:
+                        pr |= provenance(f, ta[0])
             calls = {c for c in prov_calls(pr)}
             src = sorted(calls)
             ok = bool(calls) and all(allowed.search(c) for c in calls)
